@@ -649,16 +649,21 @@ fn clean_dir(dir: &std::path::Path) {
     }
 }
 
-fn new_run(rt: &tokio::runtime::Runtime, id: Value, port: u16) -> Run {
+fn new_run(rt: &tokio::runtime::Runtime, spec: &Value, port: u16) -> Run {
+    let id = spec["id"].clone();
+    // the status messages of the three modules (what the redirector / key keeper / listener would have set): by
+    // default short ones, a run may give its own (long eBPF loader output, multi-byte text ...)
+    let msg = |k: &str, d: &str| spec["msgs"][k].as_str().unwrap_or(d).to_string();
+    let (msg_r, msg_k, msg_l) = (msg("R", MSG_R), msg("K", MSG_K), msg("L", MSG_L));
     let keys_dir = crate::common::config::get_keys_dir();
     let _ = std::fs::create_dir_all(&keys_dir);
     clean_dir(&keys_dir);
     let shared = rt.block_on(async { SharedState::start_all() });
     let ag = shared.get_agent_status_shared_state();
     rt.block_on(async {
-        let _ = ag.set_module_status_message(MSG_R.to_string(), AgentStatusModule::Redirector).await;
-        let _ = ag.set_module_status_message(MSG_K.to_string(), AgentStatusModule::KeyKeeper).await;
-        let _ = ag.set_module_status_message(MSG_L.to_string(), AgentStatusModule::ProxyServer).await;
+        let _ = ag.set_module_status_message(msg_r.clone(), AgentStatusModule::Redirector).await;
+        let _ = ag.set_module_status_message(msg_k.clone(), AgentStatusModule::KeyKeeper).await;
+        let _ = ag.set_module_status_message(msg_l.clone(), AgentStatusModule::ProxyServer).await;
     });
     let mut gates = Gates { rel: HashMap::new(), rt: rt.handle().clone() };
     for l in LABELS.iter() {
@@ -672,7 +677,7 @@ fn new_run(rt: &tokio::runtime::Runtime, id: Value, port: u16) -> Run {
     let t1 = now_nanos();
     run.ticks.push(t1);
     std::thread::sleep(Duration::from_micros(300));
-    verif::trace::emit(json!({"e": "Run", "run": id, "T": t1.to_string(), "port": port}));
+    verif::trace::emit(json!({"e": "Run", "run": id, "T": t1.to_string(), "port": port, "msgs": {"R": msg_r, "K": msg_k, "L": msg_l}}));
     run
 }
 
@@ -683,7 +688,7 @@ fn new_run(rt: &tokio::runtime::Runtime, id: Value, port: u16) -> Run {
 /// composite begins and at the end.  Ticket of a parked task = 1 + index of its next step in the schedule, so
 /// release_to() lets exactly that task through whatever gate it shares with others.
 fn run_replay(rt: &tokio::runtime::Runtime, spec: &Value, port: u16) {
-    let mut run = new_run(rt, spec["id"].clone(), port);
+    let mut run = new_run(rt, spec, port);
     let steps = spec["steps"].as_array().cloned().unwrap_or_default();
     let key = |s: &Value| task_name(s["t"].as_str().unwrap_or(""), s["i"].as_u64().unwrap_or(0));
     let moves = |s: &Value| {
@@ -1014,7 +1019,7 @@ impl Lcg {
 /// I->S: the driver chooses at random among what the *implementation* offers (tasks parked at gates, composites
 /// that can start).  Nothing is assumed about which gate a task goes to next.
 fn run_auto(rt: &tokio::runtime::Runtime, spec: &Value, port: u16) {
-    let mut run = new_run(rt, spec["id"].clone(), port);
+    let mut run = new_run(rt, spec, port);
     let mut rng = Lcg(spec["seed"].as_u64().unwrap_or(1).wrapping_mul(2654435761).wrapping_add(12345));
     let mut kk_ops: Vec<String> = spec["kk"].as_array().map(|a| a.iter().map(|v| v.as_str().unwrap_or("U").to_string()).collect()).unwrap_or_default();
     kk_ops.reverse();
